@@ -14,6 +14,24 @@ fn main() {
         println!("{}", vh::report::count_distinct_hashes(&argv[1..]));
         return;
     }
+    if argv[0] == "d11" {
+        // Canonical witness of known finding D11 (run by the driver under an address-space cap).
+        use essential_vm::{asm::short::*, Access, GasLimit, Op, Vm};
+        let breadth: i64 = argv.get(2).and_then(|s| s.parse().ok()).unwrap_or(60_000_000);
+        let mut r = vh::rng::Rng::new(1);
+        let case = vh::vmgen::base_case(&mut r);
+        let (views, _) = vh::state::Views::new(&case.pre, &case.post);
+        let mut vm = Vm::default();
+        let res = vm.exec_ops(
+            &[PUSH(breadth), COM],
+            Access::new(std::sync::Arc::new(case.solutions.clone()), 0),
+            &views,
+            &|_: &Op| 1,
+            GasLimit { per_yield: 4096, total: 10 },
+        );
+        println!("d11 witness returned {res:?}");
+        return;
+    }
     if argv[0] == "replay" {
         let text = std::fs::read_to_string(&argv[1]).expect("replay file");
         let v: serde_json::Value = serde_json::from_str(&text).expect("replay json");
